@@ -83,6 +83,7 @@ type MultiOpts struct {
 	MaxDocs    int
 	PlainOnly  bool // only the plain class
 	Full       bool // documents carry every schema key (for total traversals)
+	Big        bool // some documents carry a long scalar so that output crosses the 4 KiB buffer boundaries
 	AllowStdin bool
 	AllowEmpty bool
 	Format     string // "yaml" | "json" | one-document formats
@@ -149,6 +150,9 @@ func genYAMLPieces(r *Rand, i int, o MultiOpts) []string {
 	var pieces []string
 	for j := 0; j < nd; j++ {
 		body := g.Doc(DocID(r, i, j)).YAML()
+		if o.Big && r.Chance(1, 2) {
+			body += "pad: \"" + strings.Repeat(Pick(r, []string{"x", "ab", "lorem "}), r.Range(1500, 5000)) + "\"\n"
+		}
 		piece := body
 		if !o.PlainOnly {
 			switch {
